@@ -732,8 +732,10 @@ fn finish(spec: &Spec, tier: Tier, seed: u64, mut a: Agg, known: &[Known], wall:
         if violation_lines >= 40 {
             continue;
         }
-        let path = format!("{}/replays/{}/{}-{}-{}-{}.json", dir, spec.property, seed, tier.name(), fam, idx);
+        let ptag = std::env::var("VERIF_PROFILE_TAG").unwrap_or_default();
+        let path = format!("{}/replays/{}/{}{}-{}-{}-{}.json", dir, spec.property, if ptag.is_empty() { String::new() } else { format!("{}-", ptag) }, seed, tier.name(), fam, idx);
         let rep = json!({
+            "build_profile": if ptag.is_empty() { "release(debug-assertions, overflow-checks)" } else { ptag.as_str() },
             "property": spec.property, "seed": seed, "tier": tier.name(), "family": fam, "index": idx,
             "oracle": v.oracle, "signature": v.signature, "detail": v.detail, "case": d, "occurrences_of_this_class": n,
         });
@@ -783,7 +785,11 @@ fn finish(spec: &Spec, tier: Tier, seed: u64, mut a: Agg, known: &[Known], wall:
         "violations": n_unlisted as i64,
     });
     let _ = std::fs::create_dir_all(format!("{}/evidence", dir));
-    let evpath = format!("{}/evidence/{}.json", dir, spec.property);
+    // a run of the second build profile writes a side file that ./check folds into the main evidence file
+    let evpath = match std::env::var("VERIF_PROFILE_TAG") {
+        Ok(t) if !t.is_empty() => format!("{}/evidence/.{}.{}.json", dir, spec.property, t),
+        _ => format!("{}/evidence/{}.json", dir, spec.property),
+    };
     std::fs::write(&evpath, serde_json::to_string_pretty(&ev).unwrap()).expect("write evidence");
     let nchecks: u64 = a.checks.values().sum();
     println!(
